@@ -5,6 +5,15 @@ namespace Erbium.DnsWire
 
 def ptrLimit : Nat := Generated.Dns.pointerLimit
 
+/-- below 64 KiB the recorded offset is the offset itself, whichever way the source narrows it -/
+theorem storeOff_of_lt {off : Nat} (h : off < 65536) : storeOff off = off := by
+  unfold storeOff; split <;> omega
+
+/-- when the source saturates, an offset a pointer cannot reach is never recorded as one it can -/
+theorem storeOff_ge (h : Generated.Dns.offsetSaturates = true) {off : Nat} (hge : ptrLimit ≤ off) (hl : ptrLimit ≤ 65535) :
+    ptrLimit ≤ storeOff off := by
+  unfold storeOff; rw [if_pos h]; omega
+
 /-- a tree node below suffix `suf` stands for `label :: suf`; if a pointer may target it, its
     offset decodes to that suffix with at most `|suffix| - 1` jumps -/
 inductive TreeOK (buf : Bytes) : Name → Tree → Prop
@@ -82,10 +91,10 @@ theorem pushLabel_wf {l : Label} (h : WfLabel l) : pushLabel l = some (l.length 
     (rightmost label first) starting at offset `off` -/
 def chainOf : List Label → Nat → Option Tree
   | [], _ => none
-  | [l], off => some (.node l (off % 65536) [])
+  | [l], off => some (.node l (storeOff off) [])
   | l :: rest, off =>
     match chainOf rest off with
-    | some r => some (.node l ((off + (plain rest.reverse).length) % 65536) [r])
+    | some r => some (.node l (storeOff (off + (plain rest.reverse).length)) [r])
     | none => none
 
 theorem Dec.label' {pre post : Bytes} {l : Label} {rest : Name} {k o : Nat} (hl : WfLabel l)
@@ -151,7 +160,7 @@ theorem chain_ok (rl : List Label) (hrl : WfName rl) :
       simp only [List.reverse_cons, List.reverse_nil, List.nil_append] at *
       refine .mk suf l _ [] ?_ (by intro c hc; cases hc)
       intro _
-      rw [Nat.mod_eq_of_lt (by omega)]
+      rw [storeOff_of_lt (by omega)]
       have := dec_plain [l] (by intro x hx; simp at hx; subst hx; exact hl) pre post suf k0 o htail
       exact ⟨o, this.mono hk0 (by simp at hlim; omega)⟩
     | cons l2 rest' =>
@@ -184,7 +193,7 @@ theorem chain_ok (rl : List Label) (hrl : WfName rl) :
           exact this.mono hk0 (by omega)
         refine .mk suf l _ [r'] ?_ ?_
         · intro _
-          rw [Nat.mod_eq_of_lt (by omega)]
+          rw [storeOff_of_lt (by omega)]
           exact ⟨o, htop⟩
         · intro c hcm
           simp at hcm; subst hcm
